@@ -9,7 +9,7 @@ head=$(git -C /repo rev-parse HEAD)
 if [ ! -d "$wt" ]; then git -C /repo worktree add -q --detach "$wt" "$head" || exit 2; fi
 git -C "$wt" checkout -q --detach "$head" 2>/dev/null; git -C "$wt" checkout -- . ; git -C "$wt" clean -fdq -- src tests 2>/dev/null
 mkdir -p "$vt"
-rsync -a --delete --exclude target --exclude evidence --exclude replays /verif/mc /verif/check /verif/known_findings.json "$vt/" || exit 2
+rsync -a --delete --exclude target --exclude evidence --exclude replays /verif/mc /verif/check /verif/known_findings.json /verif/data "$vt/" || exit 2
 ln -sfn "$wt" "$vt/repo_link"
 git -C "$wt" apply "$patch" || { echo "patch does not apply"; exit 2; }
 for id in "$@"; do
